@@ -67,7 +67,7 @@ CHECKS = {
          'Trusts the sed-generated clock overlay and the pairwise bound (with a slack of one token for integer refill rounding). Ticker-driven eviction (real clock, 60 s) is not reached.',
          'DESIGN.md §3 C11'),
  'C10': ('exploration',
-         'robustness monitor in RLIMIT_AS children (panic / process death / allocation bound / watchdog) over mutated and structured hostile source and bytecode, plus an agreement monitor using the VM step hook (build tag verif): executed offsets and opcodes vs the decompiler's instruction boundaries, constants vs the loaded pool, reference container walker',
+         'robustness monitor in RLIMIT_AS children (panic / process death / allocation bound / watchdog) over mutated and structured hostile source and bytecode, plus an agreement monitor using the VM step hook (build tag verif): executed offsets and opcodes vs the instruction boundaries of the decompiler, constants vs the loaded pool, reference container walker',
          'Held on N mutated / generated / stressor inputs through lexer, expanded lexer, parser, VM (step limit) and decompiler: every call ended in a result or a diagnostic within the allocation bound; and on N compiled programs (O0/O1/O3, incl. match and async): the VM executed them without format errors, the decompiler disassembled them completely, constants agreed, and every executed instruction started at a disassembled instruction of the same opcode.',
          'Trusts the reference walker of the container layout (c10.go) and the hook (pkg/vm/verifhook_on.go). The allocation bound (256 MiB + 8 KiB per input byte) and the 20 s watchdog are deliberately loose. Async bodies run on a separate VM and are not covered by the offset comparison.',
          'DESIGN.md §3 C10'),
